@@ -160,6 +160,20 @@ impl Bits {
             if bits.len() != 11 {
                 aligned = false;
             }
+            if bits.len() == 11 && was_aligned {
+                // a host that mixes the entry points: add_word on the receiver that has just
+                // shifted this frame in, with the same payload and damaged framing bits
+                let w0 = bits_word(&bits);
+                for v in [w0, w0 ^ 0x001, w0 ^ 0x400, w0 ^ 0x401, w0 ^ 0x200] {
+                    let a = FRes::of_word(&stream.add_word(v));
+                    let wantv = frame_verdict(&word_bits(v));
+                    env.cov.api_calls += 1;
+                    env.cov.evaluations += 1;
+                    if a != wantv {
+                        fail!('ops, i, "frame-verdict-independent-of-decoder-state", "add_word({:03X}) on a receiver that has just shifted in the frame {:03X} returned {}, the PS/2 frame rule says {}", v, w0, a.show(), wantv.show());
+                    }
+                }
+            }
             if bits.len() != 11 {
                 // not a frame: the bits end up as junk in the long-lived decoder
                 for b in &bits {
@@ -485,6 +499,27 @@ impl Bits {
                             }
                         );
                     }
+                    // ... and of its near neighbours (same payload, damaged framing bits), which a
+                    // host that mixes the two entry points could present next
+                    for v in [w ^ 0x001, w ^ 0x400, w ^ 0x401, w ^ 0x200] {
+                        let a = FRes::of_word(&real.add_word(v));
+                        let b = FRes::of_word(&Ps2Decoder::new().add_word(v));
+                        env.cov.api_calls += 2;
+                        env.cov.evaluations += 1;
+                        if a != b {
+                            fail!(
+                                'ops,
+                                i,
+                                "wholeword-independent-of-partial-frame",
+                                "right after shifting in the frame {:03X} ({}), add_word({:03X}) on the same decoder returned {}, a fresh decoder returns {}",
+                                w,
+                                r.show(),
+                                v,
+                                a.show(),
+                                b.show()
+                            );
+                        }
+                    }
                     if let Some(pc) = prev_class {
                         env.cov.hit("prev_verdict_class_x_next_word", pc * 2048 + w as usize);
                         if pc != 0 {
@@ -671,12 +706,22 @@ impl Scenario for Bits {
                             5 => fault = WFault::Trunc(rng.below(11) as u8),
                             6 => {
                                 // line noise / stuck line: arbitrary 11-bit words before the frame
-                                let n = rng.range(1, 3);
+                                let stuck = rng.bool(); // a stuck/jammed line repeats the same word
+                                let n = if stuck { rng.range(1, 6) } else { rng.range(1, 3) };
+                                let w0 = match rng.below(4) {
+                                    0 => 0x000,
+                                    1 => 0x7FF,
+                                    _ => rng.below(2048) as u16,
+                                };
                                 for _ in 0..n {
-                                    let w = match rng.below(4) {
-                                        0 => 0x000,
-                                        1 => 0x7FF,
-                                        _ => rng.below(2048) as u16,
+                                    let w = if stuck {
+                                        w0
+                                    } else {
+                                        match rng.below(4) {
+                                            0 => 0x000,
+                                            1 => 0x7FF,
+                                            _ => rng.below(2048) as u16,
+                                        }
                                     };
                                     ops.push(TOp { t, op: Op::Noise { word: w, via: via_run } });
                                     t += 11 * period;
@@ -718,6 +763,11 @@ impl Scenario for Bits {
                     _ => Via::Bit,
                 };
                 let nbits = apply_wfault(b, fault).len() as u64;
+                if matches!(fault, WFault::Flip(_)) && rng.chance(1, 3) {
+                    // the resend meets the same bad line: the identical damaged frame twice in a row
+                    ops.push(TOp { t, op: Op::Frame { sent: b, fault, via } });
+                    t += nbits * period;
+                }
                 ops.push(TOp { t, op: Op::Frame { sent: b, fault, via } });
                 t += nbits.max(1) * period + rng.range(0, 2) * period;
                 last_edge = t;
